@@ -403,7 +403,11 @@ func (st *stream) describe() string {
 		s += fmt.Sprintf(" opus%v ts0=%d seq0=%d aoff=%dms", c.A, c.ATS0, c.ASeq0, c.AOff)
 	}
 	if c.PreN > 0 {
-		s += fmt.Sprintf(" preroll=%d frames (first of %d packets)", c.PreN, c.PreF0)
+		f0 := c.PreF0
+		if f0 == 0 {
+			f0 = 2
+		}
+		s += fmt.Sprintf(" preroll=%d frames of 2 packets (the first of %d)", c.PreN, f0)
 	}
 	if c.PreA > 0 {
 		s += fmt.Sprintf(" audio-preroll=%d packets, every %dth lost", c.PreA, c.PreALoss)
